@@ -121,7 +121,15 @@ func runC06(c *Check, a *Analysis) {
 			}
 		}
 		nEdges := 0
-		for _, b := range fn.Blocks {
+		var famBlocks []*ssa.BasicBlock
+		famSeen := map[*ssa.BasicBlock]bool{}
+		eachInstr(fn, func(in ssa.Instruction) {
+			if b := in.Block(); !famSeen[b] {
+				famSeen[b] = true
+				famBlocks = append(famBlocks, b)
+			}
+		})
+		for _, b := range famBlocks {
 			iff, ok := b.Instrs[len(b.Instrs)-1].(*ssa.If)
 			if !ok {
 				continue
